@@ -102,6 +102,9 @@ func columnsLayout(context *layoutContext, box_ bo.BlockBoxITF, bottomSpace pr.F
 	if skipStack != nil {
 		skip, _ = skipStack.Unpack()
 	}
+	if skip > len(box.Children) { // like a Python slice
+		skip = len(box.Children)
+	}
 	for i_, child := range box.Children[skip:] {
 		index := i_ + skip
 		if child.Box().Style.GetColumnSpan() == "all" {
